@@ -63,9 +63,25 @@ Example C04_index_safe_nonvacuous :
 Proof. vm_compute. tauto. Qed.
 
 (* ---- division by zero / access outside the rectangle in the update ------------------------------ *)
-(* Full statement (DESIGN.md C04_no_div_zero): "every Div a b and Index of every update of every
-   session has b <> 0 / is in range".  REFUTED for the code as it is (F2): see
-   C04_no_div_zero_refuted.  What holds: *)
+(* DESIGN.md C04_no_div_zero: every Div a b of every update of every session has b <> 0, and every
+   Index is in range.  It holds for the code as repaired by commits 8e7b6f1 (a scale factor that makes
+   the width 0 is refused) and d5a464d (empty update requests are ignored); [source_is_repaired] ties the
+   flags to the source this run was regenerated from.  It was refuted for the code before those commits:
+   see the ..._refuted theorems below, kept as regression witnesses. *)
+Theorem C04_source_is_repaired :
+  c04_src_scale_rejects_width0 = 0 /\ c04_src_peek_short_count = 0 /\ c04_src_fur_ignores_empty = 0.
+Proof. exact source_is_repaired. Qed.
+
+Theorem C04_no_div_zero : forall o_corr_f o_scale o_inflate o_pw c fuel r obs s' r' ok v r'' eff,
+  cfg_ok c -> cf_w c <= 65535 -> cf_h c <= 65535 -> fpu_ok o_corr_f -> repaired c ->
+  reader_bytes_ok r ->
+  run_conn o_corr_f o_scale o_inflate o_pw c fuel (init_state c) r = (obs, Some s', r', ok) ->
+  update o_corr_f c s' r' = (v, r'', eff) ->
+  Forall q_safe eff.
+Proof. exact no_div_zero_sessions. Qed.
+Example C04_no_div_zero_nonvacuous :
+  repaired (cfg_fixed 4 8) /\ session (cfg_fixed 4 8) f2_stream = Some [Div 32768 4; Div 7 8192; Write 4].
+Proof. split; [repeat split|vm_compute; reflexivity]. Qed.
 
 (* (partial) as long as the scaled screen is not degenerate - the invariant [inv] - an update
    divides by nothing that is zero and reads inside the rectangle *)
@@ -98,15 +114,15 @@ Proof. exact f2_fixed. Qed.
 Example C04_no_div_zero_fixed_nonvacuous2 : session (cfg_fixed 4 8) f22_stream = Some [].
 Proof. exact f22_fixed. Qed.
 
-(* the code as it is, first way (F22): SetEncodings [Zlib] and a FramebufferUpdateRequest of zero
-   width strictly inside the screen - no scaling involved *)
+(* the code before d5a464d (F22): SetEncodings [Zlib] and a FramebufferUpdateRequest of zero width
+   strictly inside the screen - no scaling involved *)
 Theorem C04_no_div_zero_refuted_fur :
   exists c evs eff, cfg_ok c /\ cf_fix_fur c = false /\ evs_wf evs /\ evs_bytes_ok evs /\
                     session c evs = Some eff /\ exists a, In (Div a 0) eff.
 Proof. exact no_div_zero_refuted_fur. Qed.
 
-(* second way (F2): SetScale with width < factor <= height, then an update in Zlib (division by
-   zero) or RRE (read outside the empty rectangle buffer) *)
+(* the code before 8e7b6f1 (F2): SetScale with width < factor <= height, then an update in Zlib
+   (division by zero) or RRE (read outside the empty rectangle buffer) *)
 Theorem C04_no_div_zero_refuted :
   exists c evs eff, cfg_ok c /\ cf_fix_scale c = false /\ evs_wf evs /\ evs_bytes_ok evs /\
                     session c evs = Some eff /\ exists a, In (Div a 0) eff.
@@ -155,12 +171,24 @@ Example C04_segmentation_nonvacuous :
 Proof. exact segmentation_nonvacuous. Qed.
 
 (* ---- connection set-up: the 4-byte peek of webSocketsCheck -------------------------------------- *)
-(* REFUTED for the code as it is: a peer that sends 1-3 bytes and then nothing (or goes away) makes
-   rfbPeekExactTimeout spin for ever - rfbNewClient never returns *)
+(* the code as repaired by commit efc6f84: connection set-up always terminates and each of its waits
+   is within the 100 ms connect wait (the version write: one 5 s slice) *)
+Theorem C04_connect_terminates : forall c r, repaired c -> fst (fst (connect c r)) <> CWedge.
+Proof. exact connect_terminates. Qed.
+Theorem C04_connect_wait_bound : forall c r st r' eff,
+  cfg_ok c -> repaired c -> evs_wf (r_evs r) -> connect c r = (st, r', eff) ->
+  Forall (wait_le (Z.max c04_ws_connect_wait c04_write_slice_ms)) eff.
+Proof. exact connect_wait_bound. Qed.
+Example C04_connect_terminates_nonvacuous :
+  fst (fst (connect (cfg_fixed 4 8) (mkReader [] [EData [82]; EEof] false false false false))) = COk.
+Proof. vm_compute. reflexivity. Qed.
+
+(* REFUTED for the code before efc6f84 (F21): a peer that sends 1-3 bytes and then nothing (or goes
+   away) made rfbPeekExactTimeout spin for ever - rfbNewClient never returned *)
 Theorem C04_peek_wedge_refuted :
   exists c r, cf_fix_peek c = false /\ evs_wf (r_evs r) /\ fst (fst (connect c r)) = CWedge.
 Proof. exact peek_wedge_refuted. Qed.
-(* repaired variant (notes/fix_C04_2.diff, flag cf_fix_peek): connection set-up always terminates *)
+(* (the flag alone) *)
 Theorem C04_peek_no_wedge_fixed : forall c r, cf_fix_peek c = true -> fst (fst (connect c r)) <> CWedge.
 Proof. exact connect_fixed_no_wedge. Qed.
 Example C04_peek_no_wedge_fixed_nonvacuous :
